@@ -409,6 +409,9 @@ class Interp:
         if k == 'CXXOperatorCallExpr':
             kind, name, did, obj = callee_of(n)
             ch = children(n)
+            hr = self.h.member_call(self, n, name, ch[1] if len(ch) > 1 else None, ch[2:], p)
+            if hr is not None:
+                return [(q, ('val', v)) for q, v in hr]
             if name == 'operator[]':
                 out = []
                 for q, alv in self.lval(ch[1], p):
@@ -452,6 +455,8 @@ class Interp:
         raise AnalysisBroken('unsupported lvalue %s at %s' % (k, pos(n)))
 
     def load(self, p, lv):
+        if lv[0] == 'val':
+            return lv[1]
         if lv[0] in ('field', 'deref'):
             name = lv[1]
             if name not in p.fields:
@@ -789,11 +794,11 @@ class Interp:
         kind, name, did, obj = callee_of(n)
         args = call_args(n)
         if n['kind'] == 'CXXOperatorCallExpr':
-            if name == 'operator[]':
-                return [(q, self.load(q, lv)) for q, lv in self.lval(n, p)]
             r = self.h.member_call(self, n, name, args[0] if args else None, args[1:], p)
             if r is not None:
                 return r
+            if name == 'operator[]':
+                return [(q, self.load(q, lv)) for q, lv in self.lval(n, p)]
             if name in ('operator<<', 'operator%'):
                 out = []
                 for q, vals in self.eval_args(args, p):
